@@ -74,8 +74,13 @@ def C11(ctx):
         raise ToolError("catalog too small: %d functions" % len(cat))
     # G: test purposes enumerated by TLC over the catalog
     g = tlc("TxLifecycle", "NativeCalls", workers=2, coverage=False, env={"CATALOG": cp},
+            # edge operators (boundary / arity / dangling / wrongres): every path x every variant in BOTH tiers
+            # (quick: in the rich state with the auth module off, the deepest-reaching class); only the bulk
+            # operator (wrongkind) and the state x authorisation product are subsampled in quick
             consts={"MaxPaths": "1" if q else "0", "MaxVariants": "2" if q else "0",
-                    "Auths": '{"owner", "noauth"}' if q else '{"none", "owner", "system", "noauth"}'})
+                    "Auths": '{"owner"}' if q else '{"none", "owner", "system", "noauth"}',
+                    "EdgeStates": '{"rich"}' if q else '{"genesis", "rich"}',
+                    "EdgeAuths": '{"noauth"}' if q else '{"none", "owner", "system", "noauth"}'})
     tlc_must_pass(g, "NativeCalls")
     ctx.add_tlc(g)
     os.unlink(cp)
@@ -106,7 +111,7 @@ def C11(ctx):
         raise ToolError("%d purposes could not be concretised: %s" % (len(skips), skips[0]))
     # seeded random manifests + mutated scenario manifests
     rp = ctx.wpath("crash-random.ndjson")
-    vh(BIN, ["crash", "random", "seed=%d" % ctx.seed, "n=%d" % (1500 if q else 50000), "threads=%d" % THREADS,
+    vh(BIN, ["crash", "random", "seed=%d" % ctx.seed, "n=%d" % (1000 if q else 50000), "threads=%d" % THREADS,
              "base=%d" % 10_000_000], stdout_path=rp)
     revs = [e for e in read_ndjson(rp) if e["a"] != "Skip"]
     os.unlink(rp)
